@@ -98,6 +98,12 @@ add("C02", "pysym",
     "GIL atomicity of deque operations; executors run tasks FIFO; single-producer/single-consumer queue ownership (AST table in the evidence, informational); suffixes honour the producers' contracts; wall-clock mode and the racy snapshot of other nodes' step states are outside",
     "DESIGN.md §6 C02")
 
+add("C01", "pysym+jaxpr2smt",
+    "two-sided bounded symbolic differential: the unmodified asynchronous handlers are executed on z3-backed proxies along every feasible path (engine A) to produce per-step windows and records on symbolic timings; the real EpisodeRecord.to_graph and the jaxpr of the real utils.apply_window are evaluated on those records (engine B); z3 decides window equality for every executed receiver step on every path; counterexamples replayed with floats on both real sides",
+    "LEMMA-CHAIN CLAIM. Decided here: for one connection, <= 3 messages x <= 2(3) receiver steps, windows 1-2(3), all LATEST/BUFFER x skip x blocking policies and 2(4) rate pairs, for every phase/delay on a 1 ns grid, each executed receiver step is handed asynchronously exactly the window (seq, ts_sent, ts_recv, oldest first) that apply_window(record.to_graph()) yields, and carries seq k / the recorded start time. The rest of the end-to-end statement is covered by other checks' lemmas (payload identity C08, compiled step-state threading C09/C13, conversions C14, supergraph modes through C07/C08); their composition is a paper argument, not a solver result.",
+    "canonical executor order (justified by C02); simulated clock; times/delays quantified over the 1 ns grid; InputState.push by its list semantics (decided in C03); node.step an opaque deterministic function",
+    "DESIGN.md §6 C01")
+
 def main():
     checks = []
     for pid in sorted(CHECKS):
